@@ -22,7 +22,7 @@ func init() {
 	ev.Register(&ev.Check{
 		ID:             "C13",
 		Level:          "exploration",
-		Rule:           "schemas: accepted AND rejected canonical cases (34 rule slots x 13 contexts incl. corruptions, C03 construct families, C08 rule sets of <= 2 rules on 10 node kinds) x the FULL product of spelling dimensions: line end {LF,CRLF,CR} x indentation {none,2 spaces,tab} x user comments {none,# at line ends,### blocks} x annotation form {inline, /* */ one line, /* */ three lines} x rule names {bare,quoted} x trailing comma {no,yes} (324 spellings; a # comment also follows inline annotations and notes) + notes added under the full product of line end x comments x annotation form (27 spellings) + all rule permutations (<= 3 rules): Check verdict, AST (comments blanked) and the verdict of every probe document must equal the canonical spelling's. documents: each probe x {compact, spaced, newline-heavy, CRLF} x all property permutations (<= 3 keys) x string spellings {plain, \\uXXXX for every char, \\/}: verdict equal under every schema. Entirely reference-free (metamorphic). Non-trivial = distinct (schema, spelling) or (schema, document spelling).",
+		Rule:           "schemas: accepted AND rejected canonical cases (34 rule slots x 13 contexts incl. corruptions, C03 construct families, C08 rule sets of <= 2 rules on 10 node kinds) x the FULL product of spelling dimensions: line end {LF,CRLF,CR} x indentation {none,2 spaces,tab} x user comments {none,# at line ends,### blocks} x annotation form {inline, /* */ one line, /* */ three lines} x rule names {bare,quoted} x trailing comma {no,yes} (324 spellings + 54 with tabs / runs of blanks in front of annotations, comments and commas and at line ends; a # comment also follows inline annotations and notes) + notes added under the full product of line end x comments x annotation form (27 spellings) + all rule permutations (<= 3 rules): Check verdict, AST (comments blanked) and the verdict of every probe document must equal the canonical spelling's. documents: each probe x {compact, spaced, newline-heavy, CRLF} x all property permutations (<= 3 keys) x string spellings {plain, \\uXXXX for every char, \\/}: verdict equal under every schema. Entirely reference-free (metamorphic). Non-trivial = distinct (schema, spelling) or (schema, document spelling).",
 		Run:            run,
 		Replay:         replay,
 		QuickBudget:    150 * time.Second,
@@ -125,6 +125,19 @@ func spellings(thorough bool) []gen.Spelling {
 			}
 		}
 	}
+	// alignment blanks: a tab (and a run of blanks) in front of annotations,
+	// comments and commas and at line ends, under the line-level dimensions
+	i := 0
+	for _, bl := range []string{"\t", " \t  "} {
+		for _, eol := range []string{"\n", "\r\n", "\r"} {
+			for cm := 0; cm < 3; cm++ {
+				for ml := 0; ml < 3; ml++ {
+					out = append(out, gen.Spelling{EOL: eol, Indent: []string{"  ", "\t", ""}[i%3], Comments: cm, MultiLine: ml, QuoteNames: i%2 == 1, TrailComma: i%4 >= 2, Blank: bl})
+					i++
+				}
+			}
+		}
+	}
 	return out
 }
 
@@ -222,7 +235,7 @@ var noteSpellings = func() []gen.Spelling {
 	for _, eol := range []string{"\n", "\r\n", "\r"} {
 		for cm := 0; cm < 3; cm++ {
 			for ml := 0; ml < 3; ml++ {
-				out = append(out, gen.Spelling{EOL: eol, Indent: []string{"  ", "\t", ""}[i%3], Comments: cm, MultiLine: ml, QuoteNames: i%2 == 1, TrailComma: i%4 >= 2})
+				out = append(out, gen.Spelling{EOL: eol, Indent: []string{"  ", "\t", ""}[i%3], Comments: cm, MultiLine: ml, QuoteNames: i%2 == 1, TrailComma: i%4 >= 2, Blank: []string{"", "\t"}[i%2]})
 				i++
 			}
 		}
@@ -334,6 +347,11 @@ func reportSchema(c *ev.Ctx, cs sc.Case, sp gen.Spelling, perm []int, d string) 
 			if x.QuoteNames {
 				y := x
 				y.QuoteNames = false
+				out = append(out, y)
+			}
+			if x.Blank != "" {
+				y := x
+				y.Blank = ""
 				out = append(out, y)
 			}
 			if x.TrailComma {
